@@ -205,7 +205,9 @@ class Prefixed(BaseModel):
     #     yield cls.validate
 
     def __hash__(self):
-        return hash((self.number, self.prefix))
+        # Hash the value: numbers which denote the same value, e.g. `1000 * m` and `1 * UNIT`,
+        # compare equal and therefore must hash equally.
+        return hash(self.scale(Prefix.UNIT).number)
 
     def __int__(self) -> int:
         return int(self.number) * 10**self.prefix.value
